@@ -42,6 +42,7 @@ RULE = ("graphs: ladders of depth 5..60 whose rungs cycle through seven node "
         "built over a alone.  non-trivial = a node with "
         "in-degree >= 2 through >= 2 different edge kinds or >= 2^10 paths; "
         "distinct by (graph description, mapper)")
+RULE += '  Round-4 additions to the edge family: a size parameter reachable ONLY through the shape of index lambdas that have operands (broadcast_to of a static array to (kb, 4)); a second call site of the very same FunctionDefinition object (fd(**args)), next to the re-traced equal definition.'
 ASSUMPTIONS = [
     "invocations are counted by subclassing (wrapping every map_* attribute); "
     "mappers taking extra per-path arguments are exercised through their "
